@@ -48,7 +48,7 @@ def cases(tier, rng):
     yield {'kind': 'mux', 'term': [['group_by', ['big_of'], [['count', True]]]], 'items': [5, 7, 5, 7, 9]}
     yield {'kind': 'mux', 'term': [['group_by', ['mod', 2], [['group_by', ['mod', 3], [['to_list']]]]]], 'items': list(range(12))}
     yield {'kind': 'mux', 'term': [['group_by', ['key_of'], [['to_list']]]], 'items': []}
-    n = {'quick': 500, 'thorough': 10000, 'search': 600}[tier]
+    n = {'quick': 1500, 'thorough': 10000, 'search': 600}[tier]
     for _ in range(n):
         kf = rng.choice(KEYS)
         g = muxgen.Gen(rng, {'nest': 1, 'time_split': False})
